@@ -94,7 +94,8 @@ GROUPS = ([
     grp('scan_c03_free', 'h_scan_c03_free', ['C03'], [r'C03\.freed_when_unprotected', r'C03\.at_most_once', r'C03\.no_invention'], SCAN, tier='thorough'),
     grp('scan_c03_keep', 'h_scan_c03_keep', ['C03'], [r'C03\.kept_when_protected'], SCAN, tier='thorough'),
     grp('retire', 'h_retire', ['C03', 'C02'], [r'C03\.retire_keeps_room', r'C03\.retire_conserves'], ['cds::gc::DHP::retire(T*, void(*)(void*))'] + SCAN, tier='thorough'),
-    grp('help_scan', 'h_help_scan', ['C03'], [r'C03\.help_scan_conserves', r'C03\.help_scan_empties_source'], ['dhp::smr::help_scan', 'retired_array::fini'] + SCAN, tier='thorough', two=True),
+    # group help_scan (DHP adoption of abandoned records, two records) is NOT run: the solver does not finish within 50 minutes even at the quick bounds;
+    # the harness h_help_scan stays in contracts.c. Seed C03c (help_scan: fini -> reset) lives there and is therefore not detected (DESIGN A.4).
 ]) + [
     dict(grp('retire_data_n%d' % n, 'h_retire_data_wide', ['C02', 'C03'], [r'C02\.no_free_while_guarded', r'C03\.freed_when_unprotected'], ['retire_data (search of the sorted hazard list)', 'retired_array::repush', 'retired_ptr::free'],
              tier=tr, unwind={'quick': 40, 'thorough': 40}), defines=['VX_VEC_MAX=40', 'VX_WIDE_N=36', 'VX_WIDE_FIX=%d' % n],
